@@ -468,11 +468,15 @@ class Check:
         missing = [c for c in self.required_classes if acc.classes.get(c, 0) == 0]
         if missing and not acc.fails:
             raise HarnessError(f"{self.prop}: generator classes never produced: {missing}")
-        os.makedirs(os.path.join(VERIF, "evidence", "replay"), exist_ok=True)
+        # sensitivity runs (VERIF_REPO set) may redirect their output so that they never touch the real evidence
+        evdir = os.path.join(VERIF, "evidence")
+        if os.environ.get("VERIF_REPO") and os.environ.get("VERIF_EVIDENCE_DIR"):
+            evdir = os.environ["VERIF_EVIDENCE_DIR"]
+        os.makedirs(os.path.join(evdir, "replay"), exist_ok=True)
         viol_lines = []
         for i, ((sub, sig), f) in enumerate(sorted(acc.fails.items(), key=lambda kv: (kv[0][0], kv[0][1]))):
             sub_clean = sub.split(":", 1)[1] if sub.startswith("replay:") else sub
-            path = os.path.join(VERIF, "evidence", "replay", f"{self.prop}-{i}.json")
+            path = os.path.join(evdir, "replay", f"{self.prop}-{i}.json")
             with open(path, "w") as fh:
                 json.dump(
                     dict(property=self.prop, sub=sub_clean, signature=sig, input=f["input"],
@@ -521,7 +525,7 @@ class Check:
             violations=len(acc.fails),
             repo=REPO,
         )
-        with open(os.path.join(VERIF, "evidence", f"{self.prop}.json"), "w") as fh:
+        with open(os.path.join(evdir, f"{self.prop}.json"), "w") as fh:
             json.dump(ev, fh, indent=1, ensure_ascii=True, default=repr)
         for line in viol_lines:
             print(line, flush=True)
